@@ -14,11 +14,18 @@ for name in names:
         continue
     d = os.path.join(ROOT, "seeded", name)
     meta = json.load(open(os.path.join(d, "meta.json")))
+    if meta.get("obsolete_after"):
+        out[name] = {"skipped": "obsolete after " + meta["obsolete_after"]}
+        print(name, "skipped (obsolete after a later fix)")
+        continue
     wt = f"/tmp/sr_{name}"
     subprocess.run(["git", "-C", "/repo", "worktree", "remove", "--force", wt], capture_output=True)
     subprocess.run(["git", "-C", "/repo", "worktree", "add", "--detach", wt, "HEAD"], capture_output=True, check=True)
     try:
         r = subprocess.run(["git", "-C", wt, "apply", os.path.join(d, "patch.diff")], capture_output=True, text=True)
+        if r.returncode != 0:   # the repository moved on (later fix: commits): try a 3-way merge of the patch
+            r = subprocess.run(["git", "-C", wt, "apply", "--3way", os.path.join(d, "patch.diff")], capture_output=True, text=True)
+            subprocess.run(["git", "-C", wt, "reset", "-q"], capture_output=True)
         if r.returncode != 0:
             out[name] = {"applies": False, "err": r.stderr[-300:]}
             print(name, "PATCH DOES NOT APPLY")
@@ -26,7 +33,10 @@ for name in names:
         env = dict(os.environ, QSIM_REPO=wt, OMP_NUM_THREADS="1")
         res = {}
         budget = ["--budget", "4000"] if name == "C04-w3A" else []
-        for pid in [meta["property"]]:
+        pids = [meta["property"]] + [p_ for p_ in (meta.get("caught_by") or []) if p_ != meta["property"]]
+        if meta.get("caught_by") and meta["property"] not in meta["caught_by"]:
+            pids = list(meta["caught_by"])
+        for pid in pids:
             t0 = time.time()
             p = subprocess.run([PY, "-B", "-m", "qsim", "check", pid, "--tier", "quick"] + budget, cwd=ROOT, env=env,
                                capture_output=True, text=True, timeout=7200)
@@ -37,4 +47,4 @@ for name in names:
     finally:
         subprocess.run(["git", "-C", "/repo", "worktree", "remove", "--force", wt], capture_output=True)
 json.dump(out, open(os.path.join(ROOT, "seeded", "REGRESSION.json"), "w"), indent=1)
-print(sum(1 for v in out.values() if v.get("caught")), "of", len(out), "caught")
+print(sum(1 for v in out.values() if v.get("caught")), "of", sum(1 for v in out.values() if not v.get("skipped")), "caught")
